@@ -57,6 +57,9 @@ def run(check: Check, with_flags: bool = True):
   _index_dtype(check, fi, ff, buf_defs)
   if with_flags:
     _flags(check)
+  # the number of batches is computed from len(dataset): the dataset's size is the number of rows it holds, also after slicing
+  from fjsa.props import c03
+  c03._dataset(check)
   writes = []
   for n in ff.cfg.nodes:
     if n.ast is None:
